@@ -41,6 +41,7 @@ def run(ctx):
         _zinc.spec_inclusion(ctx, 'C04.D1', version, t)
         _layout(ctx, version)
     _row_writer(ctx)
+    _zinc.version_threading(ctx, 'C04.D1', 'zincdumper')
 
 
 def _layout(ctx, version):
